@@ -453,7 +453,10 @@ def run_check(check, tier="quick", seed=0, replay_only=None):
         irpath, dump_s, dump_msg = run_vdump(check, fns, workdir)
         if os.environ.get("VERIF_VERBOSE"):
             print("  vdump %.1fs: %s" % (dump_s, dump_msg))
-        tmo = check.get("timeout_ms", {}).get(tier, 300000 if tier == "quick" else 1800000)
+        tmo = check.get("timeout_ms", {}).get(tier, 900000 if tier == "quick" else 3600000)
+        # floor: a loaded machine must not turn a decidable job into "undecided" (exit 2); VERIF_TMO_SCALE stretches it further
+        tmo = max(tmo, 900000 if tier == "quick" else 3600000)
+        tmo = int(tmo * float(os.environ.get("VERIF_TMO_SCALE", "1")))
         jobs = []
         expanded = []
         import itertools
